@@ -17,7 +17,7 @@ from ..gen import c01_hist as HI
 from ..gen import c01_misc as MI
 
 PID = "C01"
-COQ_HEADER = ("From Coq Require Import List NArith ZArith.\nFrom SK Require Import lib.Tok lib.LGraph model.C01_Model model.C02_Model model.C01_Opts model.C01_String.\n"
+COQ_HEADER = ("From Coq Require Import List NArith ZArith.\nFrom SK Require Import lib.Tok lib.LGraph model.C01_Model model.C02_Model model.C01_Opts model.C01_String model.C01_Attrs model.C01_CleanWc.\nFrom Coq Require Import String.\n"
               "Import ListNotations.\nOpen Scope Z_scope.\n")
 SHARD = 400
 IMPL_TIMEOUT = 1500
@@ -50,7 +50,10 @@ EXPLANATION = ("Exhaustive sub-space (both tiers): ALL pairs (G,H) on a shared n
                "3-9 calls in one process on the same strings / shared graph objects, attribute selections and modes in changing order, in-place "
                "edits, spoiled results, positional wrappers; the library's modules are re-executed before each history), degenerate values "
                "(empty sides, single atoms, id 0, huge ids, falsy labels), reactions of 110-170 atoms, every builder of MolToGraph, GraphToMol "
-               "options, graph_to_rsmi without ITS, and option paths without a model of their own checked against the reference path (api-misc).")
+               "options, graph_to_rsmi without ITS, and option paths without a model of their own checked against the reference path (api-misc).  "
+               "Round 4: caller-chosen node_attrs - rsmi_to_its(node_attrs=sorted / reversed / permuted / repeated / reduced list) through "
+               "the whole pipeline (str-na-*), construct(node_attrs=L) with the positional its_decompose over untyped values (attrs), "
+               "clean_wc / its_to_rsmi(clean_wildcards=True) at text level (cwc).")
 TRUSTED_BASE = [
     "Coq 8.16.1 kernel + vm_compute (no native_compute); stdlib only",
     "hand-written models coq/model/C01_Model.v, C01_Opts.v (ITSConstruction options), C01_String.v (MolToGraph.transform, implicit_hydrogen, "
@@ -66,8 +69,9 @@ TRUSTED_BASE = [
 ASSUMPTIONS = [
     "node ids are natural numbers; atom_map, hcount, charge are integers; bond orders are multiples of 0.5",
     "balanced = reactant and product graph have the same node-id set (for strings: equal atom-map sets, every atom mapped, maps unique per side)",
-    "node_attrs of ITSConstruction.construct is the default list (element, aromatic, hcount, charge, neighbors) that ITSGraph passes; other "
-    "selections are not modelled (its_decompose reads positions 0..3 of typesGH)",
+    "its_decompose reads typesGH positionally (element, aromatic, hcount, charge = positions 0..3): the round trip is claimed for "
+    "construct(node_attrs=L) only when L starts with these four names (theorem C01_attrs_legacy_prefix; refuted otherwise, C01_attrs_order_refuted); "
+    "rsmi_to_its always passes the legacy list, whatever node_attrs the caller gives",
     "RDKit contract R1 (premise of C01_rsmi_pipeline): for a well-formed graph that is the MolToGraph reading of a molecule RDKit has read, "
     "reading back what RDKit writes for GraphToMol's RWMol gives the same mapped graph",
     "atom-map-equivalence of strings is taken modulo spectator explicit hydrogens (a mapped H bonded to the same single heavy atom on both "
@@ -82,7 +86,7 @@ TESTED_NOT_PROVED = [
     "explicit_hydrogen=True it is proved for all balanced reactions: C01_rsmi_pipeline_explicit)",
     "implicit_hydrogen keeps every non-hydrogen atom's total H on graphs whose hydrogens have one bond: oracle on every ih case (theorem C01_implicit_hydrogen for all well-formed graphs)",
 ]
-LEVEL_TEXT = ("Machine-checked proof (Coq, 23 theorems) over an executable model of ITSConstruction.construct/ITSGraph and its_decompose: for all well-formed "
+LEVEL_TEXT = ("Machine-checked proof (Coq, 29 theorems) over an executable model of ITSConstruction.construct/ITSGraph and its_decompose: for all well-formed "
               "reactant/product graphs on the same node set with positive bond orders, decompose(construct(G,H)) returns exactly G and H "
               "(atoms, element, aromaticity, hydrogen count, charge, atom_map = node id, every bond with its order) - for every value of "
               "ignore_aromaticity, balance_its, store and attributes_defaults; the ITS has exactly the union of the nodes and bonds, every bond "
@@ -99,7 +103,8 @@ LEVEL_NOTE = ("Defect found and repaired in this round: rsmi_to_its(explicit_hyd
               "(its_to_rsmi returned None for 346/346 corpus reactions), /repo commit 61e730e, regress corpus + known_findings.d/C01.json. "
               "RDKit (parse, sanitise, write) is a named premise (contract R1 of theorem C01_rsmi_pipeline), monitored by an independent-reading "
               "oracle on the corpora, not verified; the string-level theorem covers reactions without explicit hydrogen atoms, reactions with "
-              "explicit hydrogens are covered by the graph-level theorems plus the string oracle. node_attrs other than the default are not modelled.")
+              "explicit hydrogens under the default writer is proved relative to a four-premise contract (C01_rsmi_pipeline_hydrogens). "
+              "its_to_rsmi(clean_wildcards=True) is lossy by design (C01_clean_wildcards_refuted) and outside the oracle.")
 
 
 def worker_init():
@@ -128,10 +133,16 @@ def impl(case):
     k = case.get("kind", "")
     if k == "api-misc":
         return MI.obs(case)
+    if k == "attrs":
+        return MI.obs_attrs(case)
+    if k == "cwc":
+        return MI.obs_cwc(case)
     if k == "hist-str":
         return HI.obs_hist_str(case)
     if k == "hist-pair":
         return HI.obs_hist_pair(case)
+    if k.startswith("str-na"):
+        return T.obs_pipeline_na(case["rsmi"], case["node_attrs"])
     if k.startswith("str-eh"):
         return T.obs_pipeline_eh(case["rsmi"])
     if k.startswith("str-wopt"):
@@ -167,10 +178,16 @@ def coq_case(case):
     try:
         if k == "api-misc":
             return MI.coq(case)
+        if k == "attrs":
+            return MI.coq_attrs(case)
+        if k == "cwc":
+            return MI.coq_cwc(case)
         if k == "hist-str":
             return HI.coq_hist_str(case) if R.well_formed(case["rsmi"]) else None
         if k == "hist-pair":
             return HI.coq_hist_pair(case)
+        if k.startswith("str-na"):
+            return T.coq_pipeline_na(case["rsmi"], case["node_attrs"]) if case["rsmi"].count(">>") == 1 else None
         if k.startswith("str-"):
             return T.coq_pipeline(case["rsmi"], k.startswith("str-eh"), k.startswith("str-wopt")) if case["rsmi"].count(">") == 2 and case["rsmi"].count(">>") == 1 else None
         if k == "m2g":
@@ -306,7 +323,7 @@ def fold_spectator_h(A, B):
     return (na, ea), (nb, eb)
 
 
-def string_clauses(rsmi, G, H, explicit_hydrogen=False, write_explicit=False):
+def string_clauses(rsmi, G, H, explicit_hydrogen=False, write_explicit=False, node_attrs=None):
     """parser monitor + its_to_rsmi(rsmi_to_its(r)) ~ r; demanded only for balanced, fully and uniquely mapped reactions"""
     import networkx as nx
     from synkit.IO.chem_converter import rsmi_to_its, its_to_rsmi
@@ -322,7 +339,14 @@ def string_clauses(rsmi, G, H, explicit_hydrogen=False, write_explicit=False):
             dn = {k: (got.get(k), Y[0].get(k)) for k in set(got) | set(Y[0]) if got.get(k) != Y[0].get(k)}
             fails.append(dict(clause="parse-monitor", detail="%s graph of rsmi_to_graph differs from the independent RDKit reading: %r" % (side, dn)))
             return fails, True
-    if write_explicit:
+    if node_attrs is not None:
+        from synkit.Graph.ITS.its_decompose import its_decompose
+        Ina = rsmi_to_its(rsmi, node_attrs=list(node_attrs))
+        g2, h2 = its_decompose(Ina)
+        _cmp_graph("reactant", G, g2, fails)
+        _cmp_graph("product", H, h2, fails)
+        back = its_to_rsmi(Ina)
+    elif write_explicit:
         back = its_to_rsmi(rsmi_to_its(rsmi), explicit_hydrogen=True)
     else:
         back = its_to_rsmi(rsmi_to_its(rsmi, explicit_hydrogen=True)) if explicit_hydrogen else its_to_rsmi(rsmi_to_its(rsmi))
@@ -381,10 +405,12 @@ def ih_clauses(gjson, pres):
 def oracle(case):
     if case.get("kind") == "ih":
         return ih_clauses(case["G"], case["pres"])
-    if case.get("kind") in ("m2g", "g2r", "g2m"):
+    if case.get("kind") in ("m2g", "g2r", "g2m", "cwc"):
         return []
     if case.get("kind") == "api-misc":
         return MI.oracle(case)
+    if case.get("kind") == "attrs":
+        return MI.oracle_attrs(case, _cmp_graph, balanced_pair)
     if case.get("kind") == "hist-str":
         return HI.oracle_hist_str(case, string_clauses, R.well_formed)
     if case.get("kind") == "hist-pair":
@@ -400,6 +426,15 @@ def oracle(case):
     G, H = gh
     if case.get("kind", "").startswith("str-"):
         if R.well_formed(case["rsmi"]):
+            if case["kind"].startswith("str-na"):
+                # a caller's list that names all six attributes, in any order: the ITS must still decompose into the two graphs
+                if set(case["node_attrs"]) >= set(T.NODE_ATTRS) and balanced_pair(G, H):
+                    f2, _ = string_clauses(case["rsmi"], G, H, node_attrs=case["node_attrs"])
+                    for f in f2:
+                        f["clause"] = "na-" + f["clause"]
+                        f["detail"] = "node_attrs=%r: %s" % (case["node_attrs"], f["detail"])
+                    fails += f2
+                return fails[:3]
             f2, _ = string_clauses(case["rsmi"], G, H, case["kind"].startswith("str-eh"), case["kind"].startswith("str-wopt"))
             if case["kind"].startswith("str-wopt"):
                 for f in f2:
@@ -442,7 +477,7 @@ def neighbours(case, rng):
 def nontrivial(case, obs):
     if case.get("kind") == "ih":
         return bool(case["pres"]) and any(a["element"] == "H" for _, a in case["G"]["nodes"])
-    if case.get("kind") in ("m2g", "g2r", "g2m", "api-misc"):
+    if case.get("kind") in ("m2g", "g2r", "g2m", "api-misc", "attrs", "cwc"):
         return False
     if case.get("kind", "").startswith("hist-"):
         return True
@@ -483,7 +518,7 @@ def distribution(cases, obss):
             if k.startswith("hist-"):
                 extra["history_steps"] = extra.get("history_steps", 0) + len(c["steps"])
                 continue
-            if k in ("g2r", "g2m", "api-misc"):
+            if k in ("g2r", "g2m", "api-misc", "attrs", "cwc"):
                 continue
             if k == "m2g":
                 extra["m2g_with_unmapped_atoms"] += ":" not in c["smiles"] or c["smiles"].count("[") > c["smiles"].count(":")
@@ -773,6 +808,21 @@ def gen_str(rsmi_cases, rng, n_exph):
         if "rsmi" in c and "opts" not in c and c["kind"] in ("corpus", "rw-renum"):
             cases.append(dict(kind="str-eh-" + c["kind"], rsmi=c["rsmi"], src=c.get("src")))
             cases.append(dict(kind="str-wopt-" + c["kind"], rsmi=c["rsmi"], src=c.get("src")))
+    six = list(T.NODE_ATTRS)
+    for c in rsmi_cases:                                       # rsmi_to_its with the caller's own node_attrs list
+        if "rsmi" in c and "opts" not in c and c["kind"] in ("corpus", "rw-renum"):
+            z = rng.random()
+            if z < 0.3:
+                na = sorted(six)
+            elif z < 0.45:
+                na = list(reversed(six))
+            elif z < 0.75:
+                na = rng.sample(six, 6)
+            elif z < 0.85:
+                na = rng.sample(six, 6) + [rng.choice(six)]
+            else:
+                na = ["atom_map"] + rng.sample(six[:5], rng.randint(1, 4))
+            cases.append(dict(kind="str-na-" + c["kind"], rsmi=c["rsmi"], node_attrs=na, src=c.get("src")))
     pool = [c for c in rsmi_cases if c.get("kind") == "corpus"]
     rng.shuffle(pool)
     k = 0
@@ -817,6 +867,7 @@ def gen_str(rsmi_cases, rng, n_exph):
         cases.append(dict(kind="str-hand", rsmi=R.renumber_maps(r, rng), src="hand#%d-renum" % i))
         cases.append(dict(kind="str-eh-hand", rsmi=r, src="hand#%d" % i))
         cases.append(dict(kind="str-wopt-hand", rsmi=r, src="hand#%d" % i))
+        cases.append(dict(kind="str-na-hand", rsmi=r, node_attrs=sorted(T.NODE_ATTRS) if i % 2 else rng.sample(list(T.NODE_ATTRS), 6), src="hand#%d" % i))
     return cases
 
 
@@ -956,6 +1007,8 @@ def gen_histories(rsmi_cases, rng, n_str, n_pair):
             extra.append(dict(kind="api-misc", rsmi=r))
     for c in gen_ih(rng, max(40, n_pair // 3)):
         extra.append(dict(kind="g2m", G=c["G"], ibo=rng.random() < 0.5, uhc=rng.random() < 0.5))
+    extra += MI.gen_attrs(pairs + gen_malformed(rng, 10), rng, max(150, n_pair))
+    extra += MI.gen_cwc(rs, rng, max(40, n_str))
     return HI.gen_hist_str(rs, rng, n_str) + HI.gen_hist_pair(pairs, rng, n_pair, _opts) + extra
 
 
